@@ -641,6 +641,36 @@ pub fn log_auth(addr: u64) {
     }
     h.n_auth += 1;
 }
+pub static mut TEMP_TTL: [(Short, u32, u32); 2] = [(Short::zero(), 0, 0); 2];
+pub static mut N_TEMP_TTL: usize = 0;
+pub fn log_temp_ttl(key: Words, threshold: u32, extend_to: u32) {
+    unsafe {
+        if N_TEMP_TTL >= 2 {
+            harness_bug("temporary ttl log capacity");
+        }
+        TEMP_TTL[N_TEMP_TTL] = (Short::of(&key), threshold, extend_to);
+        N_TEMP_TTL += 1;
+    }
+}
+/// largest lifetime (in ledgers from now) requested for this temporary key during the invocation (None if none)
+pub fn temp_ttl_requested<K: Wordy>(key: &K) -> Option<u32> {
+    let k = Short::of(&Words::of(key));
+    let mut r: Option<u32> = None;
+    let mut i = 0;
+    while i < 2 {
+        unsafe {
+            if i < N_TEMP_TTL && TEMP_TTL[i].0.eq(&k) {
+                let e = TEMP_TTL[i].2;
+                r = Some(match r {
+                    Some(x) if x > e => x,
+                    _ => e,
+                });
+            }
+        }
+        i += 1;
+    }
+    r
+}
 pub static mut CUSTOM_AUTH: [(u64, u32); 2] = [(0, 0); 2];
 pub static mut N_CUSTOM_AUTH: usize = 0;
 /// `require_auth_for_args`: recorded apart from the full-invocation authorisations
